@@ -518,12 +518,21 @@ impl Retrier {
             for locator in locators.into_iter() {
                 // The appointment may not be there anymore (e.g. the tower was abandoned, and registered again, while it was
                 // waiting to be retried). There is nothing to send in that case.
-                let appointment = self
-                    .wt_client
-                    .lock()
-                    .unwrap()
-                    .dbm
-                    .load_appointment(locator);
+                let appointment = {
+                    let wt_client = self.wt_client.lock().unwrap();
+                    // The tower may have been abandoned, or proven to misbehave by someone else (e.g. by the reply to a
+                    // request sent straight from the commitment revocation hook), since the last appointment was sent.
+                    match wt_client.towers.get(&tower_id) {
+                        None => return Err(Error::permanent(RetryError::Abandoned)),
+                        Some(tower) if tower.status.is_misbehaving() => {
+                            return Err(Error::permanent(RetryError::Abandoned))
+                        }
+                        // Only what is (still) pending for this tower is sent: if the tower was abandoned and registered
+                        // again meanwhile, what this retrier was holding belongs to the tower's previous life.
+                        Some(tower) if !tower.pending_appointments.contains(&locator) => None,
+                        _ => wt_client.dbm.load_appointment(locator),
+                    }
+                };
                 let appointment = match appointment {
                     Some(appointment) => appointment,
                     None => {
